@@ -70,6 +70,7 @@ def run(chk):
     chk.info.update(P.stats())
     chk.rule("C17.E", "write(fp): no user-function evaluation after the first byte reaches fp", 11)
     chk.rule("C17.W", "write(fp) does reach fp (the summary is not vacuous)", 11)
+    chk.rule("C17.O", "open_fp(name) of every tabulation class opens the named output file for (over)writing", 11)
     chk.rule("C17.A", "action_tabulate builds the tabulation before opening the output file and only writes inside the with-block", 2)
     I0 = W.make_interp(P)
     classes = registered_classes(P, I0)
@@ -108,6 +109,17 @@ def run(chk):
                    key="C17.E|%s.write" % ci.name)
             chk.ob("C17.W", "%s.write reaches fp and evaluates user functions" % ci.name, nwrites >= 1 and nevals >= 1, site=site,
                    found="%d writes, %d evals" % (nwrites, nevals), expect=">=1 each", key="C17.W|%s.write" % ci.name)
+            # the file object potable writes to: open_fp(name) opens that very file, for writing (anything else and the named
+            # output file is not the one that stays empty or complete)
+            if ci.lookup("open_fp") is not None:
+                J = W.make_interp(P)
+                b = J.call(J.getattr(ClassV(ci), "open_fp"), [Const("out.table")], {})
+                fn, mode = getattr(b, "filename", None), getattr(b, "mode", None)
+                ok = isinstance(b, BufV) and isinstance(fn, Const) and fn.v == "out.table" and isinstance(mode, Const) \
+                    and isinstance(mode.v, str) and mode.v in (("wb",) if excel else ("w", "wt"))
+                chk.ob("C17.O", "%s.open_fp(name) opens the named file, truncating, in %s mode" % (ci.name, "binary" if excel else "text"), ok,
+                       site=ci.lookup("open_fp").site(), found=(fn, mode) if isinstance(b, BufV) else b,
+                       expect="open(name, %r)" % ("wb" if excel else "w"), key="C17.O|%s.open_fp" % ci.name)
             return nevals
         r = chk.attempt(ci.name, one)
         nev += r or 0
